@@ -86,8 +86,8 @@ class C02(C01):
         "a hang is observed as 'no return within 20 s'",
     ]
     partial_note = (
-        "termination / completeness / order-freedom are theorems about the axis-level abstraction M-PROP°, which is tied to "
-        "the code by the per-call trace correspondence (not by a proved simulation of the faithful wire-level model)"
+        "run-to-run determinism of CPython itself (address-ordered sets) is outside the model: it is checked by re-running "
+        "each script with shifted heap addresses; a hang is observed as a time-out"
     )
 
     def gen_cases(self, rng: random.Random, tier: str) -> List[dict]:
